@@ -87,6 +87,11 @@ def grid(ctx, rng):
         point("60k x 1 byte -s 100000, 512KiB stack", 60000, "1", 1, 512 * KIB, opts=["-s", "100000"]),
         point("one 200000-byte arg among small with -s 500000", 300, "10", 1, 8 * MIB, opts=["-s", "500000"], big=(7, 200000)),
         point("one 131072-byte arg with -s 1500000 -n 100", 300, "10", 1, 8 * MIB, opts=["-s", "1500000", "-n", "100"], big=(150, MAX_ARG_STRLEN)),
+        # the argument that fits no command line arrives exactly when -n has just closed a group (the first of the next one)
+        point("one 131072-byte arg first of the second -n 100 group", 300, "10", 1, 8 * MIB, opts=["-n", "100"], big=(100, MAX_ARG_STRLEN)),
+        point("one 200000-byte arg first of a later -n 3 group", 300, "10", 1, 8 * MIB, opts=["-n", "3"], big=(150, 200000)),
+        point("one 131072-byte arg sixth under -n 1", 40, "10", 1, 8 * MIB, opts=["-n", "1"], big=(5, MAX_ARG_STRLEN)),
+        point("one 131072-byte arg first of the third -n 2 group with -s 1000000", 40, "10", 1, 8 * MIB, opts=["-s", "1000000", "-n", "2"], big=(4, MAX_ARG_STRLEN)),
         # multi-byte arguments: limits are in bytes, not characters
         point("30k x 100 two-byte characters, 8MiB", 30000, "utf8-200", 1, 8 * MIB),
         point("one argument of 100000 two-byte characters (200000 bytes) among small", 300, "10", 1, 8 * MIB, big=(9, "utf8:100000")),
